@@ -80,6 +80,8 @@ def strategy(tier):
 
 
 def enumerate_cases(tier):
+    for case in resend_cases():
+        yield case
     for case in _policy_cases(tier):
         yield case
     for case in _admin_cases(tier):
@@ -178,7 +180,69 @@ def header_sizes(sent_form, total):
     return len(r.encode(first)), len(r.encode(later))
 
 
+def resend_cases():
+    ''' The same container handed to send_bundle() again after the convergence layer refused it the first time (an
+    application retrying, as the SAND application does).  With a BIB policy the security step signs again, so the
+    container has grown by one BIB at the second attempt: it fitted the route MTU the first time and does not any more;
+    with a small payload the blocks alone exceed the MTU then (fragmentation impossible: nothing may leave), with a
+    large one the second attempt has to leave as fragments. '''
+    for plen, pcrc in itertools.product((10, 40, 400, 1000), (0, 1, 2)):
+        yield {'kind': 'resend', 'plen': plen, 'pcrc': pcrc, 'nofrag': False}
+
+
+def execute_resend(case):
+    from vlib import bp_world as bw, ref9171 as r, bpconv, strat9174, bpsec_util as bu
+    from bp.util import BundleContainer
+    out = Outcome()
+
+    def make():
+        bw.reset()
+        made = bw.Node(NODE, rx_routes=[('.*', 'forward')], tx_routes=[('.*', 'dtn://next/', None)])
+        bu.give_key(made, 'k-mac-1', 5, 'mac')
+        bu.add_policy(made, 'bib', 'k-mac-1', [1])
+        return made
+    flags = r.FLAG_NO_FRAGMENT if case['nofrag'] else 0
+    pri = dict(version=7, flags=flags, crc_type=case['pcrc'], dest=['dtn', '//far/away'], src=['dtn', '//me/app'], rpt=['dtn', 'none'],
+               ts=[1000, 1], lifetime=3600000, frag=None)
+    bundle = {'primary': pri, 'blocks': [dict(type=1, num=1, flags=0, crc_type=1, data=strat9174.content(case['plen'], 5).hex())]}
+    # probe: how large is the bundle with one BIB
+    node = make()
+    node.send(BundleContainer(bpconv.to_repo(bundle)))
+    if len(node.sent()) != 1:
+        out.fail('resend-setup', 'probe run sent %d bundles' % len(node.sent()))
+        return out
+    size1 = len(node.sent()[0])
+    # the MTU lets the once-signed bundle through with a little to spare; without the do-not-fragment flag it is made so
+    # small at the second attempt that not even one payload octet fits next to the blocks
+    node = make()
+    mtu = size1 + 8 if case['nofrag'] else size1 - case['plen'] + 8
+    if not case['nofrag']:
+        # first attempt must fit: use a payload-less margin only when the once-signed bundle fits
+        mtu = size1 + 8
+    node.set_mtu(0, mtu)
+    ctr = BundleContainer(bpconv.to_repo(bundle))
+    node.cl.fail = True
+    err = node.send(ctr)
+    node.cl.fail = False
+    if err is None or node.sent():
+        out.fail('resend-setup', 'the first hand-over was meant to fail (error %r, %d bundles out)' % (err, len(node.sent())))
+        return out
+    err = node.send(ctr)
+    sent = node.sent()
+    where = 'second send of the same container (one more BIB), payload %d, once-signed size %d, route MTU %d, do-not-fragment %s' % (
+        case['plen'], size1, mtu, case['nofrag'])
+    for data in sent:
+        if len(data) > mtu:
+            out.fail('oversized-after-resend', 'a %d-octet bundle was handed to the CL (%s; error %r)' % (len(data), where, err))
+    out.label('resend:sent-%d' % min(len(sent), 3))
+    out.nontrivial = True
+    out.label('resend')
+    return out
+
+
 def execute(case):
+    if case.get('kind') == 'resend':
+        return execute_resend(case)
     from vlib import bp_world as bw, ref9171 as r, bpconv
     from bp.util import BundleContainer
     out = Outcome()
